@@ -1023,7 +1023,8 @@ fn sx_expr(e: &syn::Expr) -> String {
         syn::Expr::Group(p) => sx_expr(&p.expr),
         syn::Expr::Reference(r) => {
             if r.mutability.is_some() {
-                format!("(unsupported {})", q("&mut"))
+                // a mutable borrow: dumped as such; the translator accepts it only where it gives it a meaning
+                format!("(refmut {})", sx_expr(&r.expr))
             } else {
                 format!("(ref {})", sx_expr(&r.expr))
             }
